@@ -276,5 +276,26 @@ fn main() {
         run.bound(format!("scale: {} glob / plain patterns of 16..4096 characters x 8 names each", count));
         run.merge(t);
     }
+    // character sweep: every ASCII and 64 special non-ASCII characters as a literal in patterns and names
+    {
+        let chars: Vec<char> = mc_core::chars::all().into_iter().filter(|c| !"*?[]{}<>".contains(*c)).collect();
+        run.bound(format!("character sweep: {} characters in 8 pattern shapes x 10 names", chars.len()));
+        let mut t = Tally::new();
+        for c in chars {
+            let names: Vec<String> = vec![
+                format!("{}", c), format!("{}a", c), format!("a{}", c), "a".into(), String::new(), format!("{}{}", c, c), format!("a{}a", c), format!("a{}b", c), format!("x{}", c), format!("{}-1.0", c),
+            ];
+            let mut pats = vec![format!("{}", c), format!("{}a", c), format!("a{}", c), format!("{}*", c), format!("*{}", c), format!("?{}", c), format!("a{}[ab]", c)];
+            if !"!^-\\".contains(c) {
+                pats.push(format!("[!{}]x", c));
+                pats.push(format!("[{}a]", c));
+            }
+            for p in &pats {
+                t.states += 1;
+                check(&mut t, p, &names);
+            }
+        }
+        run.merge(t);
+    }
     run.finish();
 }
